@@ -4,7 +4,8 @@
    statement; stage B materialises every state on disk / in os.environ and compares.
 
    Mode "conf":  per existence pattern of the 4 candidate files (none / only the k-th / two of them)
-                 x every key state of the first existing file (3^3) x a second existing file that
+                 x every key state of the first existing file (3^3) x every content class those keys allow
+                 (plain / 0 bytes / whitespace-and-comments only) x a second existing file that
                  has all keys or none x every subset of the environment variables (2^3)
                  x (location class, default-location existence) applied to both stores;
                  plus, for a reduced set of sources, every combination of location classes and
@@ -25,15 +26,21 @@ KeyFns(E) ==
        {[i \in 1..4 |-> IF i = f1 THEN k1 ELSE IF i = f2 THEN k2 ELSE All("absent")] :
           k1 \in [Settings -> KeyStates],
           k2 \in (IF f1 = f2 THEN {All("absent")} ELSE {All("absent"), All("present")})}
-Cfg(E, k, e, l, d) == [n |-> 4, exist |-> E, key |-> k, env |-> e, loc |-> l, defx |-> d]
+\* content class of every existing file (see ClientConf: "plain" | "empty" = 0 bytes | "blank" = only
+\* whitespace and comment lines); the first existing file takes every class its keys allow
+BodyFns(E, k) ==
+  IF E = {} THEN {[i \in 1..4 |-> "plain"]}
+  ELSE LET f1 == MinOf(E) IN
+       {[i \in 1..4 |-> IF i = f1 THEN b ELSE "plain"] : b \in BodiesAllowed(k[f1])}
+CfgB(E, k, b, e, l, d) == [n |-> 4, exist |-> E, key |-> k, body |-> b, env |-> e, loc |-> l, defx |-> d]
 \* (the product is enumerated by TLC through the quantifiers of Init; building it as one set value first
 \*  made TLC spend minutes normalising a set of 7*10^4 large records)
-InitDiagonal == \E E \in Patterns : \E k \in KeyFns(E) : \E e \in [Settings -> BOOLEAN] :
+InitDiagonal == \E E \in Patterns : \E k \in KeyFns(E) : \E b \in BodyFns(E, k) : \E e \in [Settings -> BOOLEAN] :
                   \E lc \in LocClasses : \E dx \in DefLists :
-                    x = Cfg(E, k, e, [s \in Stores |-> lc], [s \in Stores |-> dx])
+                    x = CfgB(E, k, b, e, [s \in Stores |-> lc], [s \in Stores |-> dx])
 InitCross == \E E \in {{}, {2}} : \E ks \in KeyStates : \E b \in BOOLEAN :
                \E l \in [Stores -> LocClasses] : \E d \in [Stores -> DefLists] :
-                 x = Cfg(E, [i \in 1..4 |-> IF i \in E THEN All(ks) ELSE All("absent")], All(b), l, d)
+                 x = CfgB(E, [i \in 1..4 |-> IF i \in E THEN All(ks) ELSE All("absent")], [i \in 1..4 |-> "plain"], All(b), l, d)
 
 Schemes == {"unix", "tcp", "tcp4", "tcp6", "udp", "udp4", "udp6", "ws", "foo", "http", "file", ""}
 Uris == {Uri(sc, a, p, "") : sc \in Schemes \ {"unix", ""}, a \in {"h", "127.0.0.1", "::1", "example.org"}, p \in {0, 1, 6363, 65535}}
@@ -52,6 +59,7 @@ I_AsGiven     == kind = "conf" => P_ExistingUsedAsGiven(x, out)
 I_NextToFile  == kind = "conf" => P_RelativeNextToFile(x, out)
 I_FallBack    == kind = "conf" => P_MissingFallsBackToDefault(x, out)
 I_Determined  == kind = "conf" => \A s \in Stores : out[s].where # {}
+I_Content     == kind = "conf" => P_ContentClassIrrelevant(x, out)
 I_Face        == kind = "face" => P_Face(x, out)
 
 \* vacuity: the situations the clauses talk about are in the product
@@ -63,6 +71,10 @@ Witnesses ==
           /\ \E E \in Patterns : \E k \in KeyFns(E) : E # {} /\ k[MinOf(E)]["pib"] = "present"
           /\ \E E \in Patterns : \E k \in KeyFns(E) : Cardinality(E) = 2 /\ k[MinOf(E)]["transport"] = "commented"
                                                          /\ k[MaxOf(E)]["transport"] = "present"
+          \* the first existing file is empty (0 bytes) while a later existing file sets the keys
+          /\ \E E \in Patterns : \E k \in KeyFns(E) : \E b \in BodyFns(E, k) :
+                Cardinality(E) = 2 /\ b[MinOf(E)] = "empty" /\ k[MaxOf(E)]["transport"] = "present"
+          /\ \E E \in Patterns : \E k \in KeyFns(E) : \E b \in BodyFns(E, k) : E # {} /\ b[MinOf(E)] = "blank"
           /\ "relE" \in LocClasses /\ "absM" \in LocClasses /\ <<FALSE>> \in DefLists /\ <<TRUE>> \in DefLists
   /\ (Mode \in {"face", "both"}) =>
           /\ \E u \in Uris : u.port = 0 /\ FaceOf(u).k = "udp"
